@@ -33,6 +33,7 @@ def work(job):
             part.count('parse.' + type(e).__name__)
             continue
         history = []
+        deferred = []
         for step in range(rng.randint(2, 6)):
             x = rng.random()
             if x < 0.15 or (step == 0 and x < 0.5):
@@ -52,12 +53,16 @@ def work(job):
                     got = ('ok', asn1tools.compile_dict(d, codec, numeric_enums=numeric))
             except Exception as e:
                 got = ('err', impl.classify(e))
+            part.count('compile.%s' % got[0])
+            # the fresh reference compiles are made AFTER the whole history: a compile of another dictionary in between would hide state
+            # that is keyed by "the dictionary compiled last"
+            deferred.append((got, codec, numeric, list(history)))
+        for got, codec, numeric, history in deferred:
             try:
                 with core.time_limit(60):
                     fresh = ('ok', asn1tools.compile_string(text, codec, numeric_enums=numeric))
             except Exception as e:
                 fresh = ('err', impl.classify(e))
-            part.count('compile.%s' % got[0])
             if got[0] != fresh[0] or (got[0] == 'err' and got[1] != fresh[1]):
                 part.violation('compile_dict outcome after a history differs from a fresh compile', {'module': text, 'history': history, 'got': got[1] if got[0] == 'err' else 'ok', 'fresh': fresh[1] if fresh[0] == 'err' else 'ok'})
                 continue
